@@ -332,3 +332,24 @@ func StringClasses() []string {
 	out = append(out, " lead", "trail ", " both ", "in  ner", "tab\tin", "nl\nin", "a\r\nb")
 	return out
 }
+
+// XMLStringClasses: StringClasses without the C0 control characters XML 1.0 cannot
+// carry at all (everything below U+0020 except tab, line feed, carriage return).
+func XMLStringClasses() []string {
+	var out []string
+	for _, s := range StringClasses() {
+		ok := true
+		for _, r := range s {
+			if r < 0x20 && r != '\t' && r != '\n' && r != '\r' {
+				ok = false
+			}
+			if r == 0xfffe || r == 0xffff {
+				ok = false
+			}
+		}
+		if ok {
+			out = append(out, s)
+		}
+	}
+	return out
+}
